@@ -15,7 +15,7 @@ META = {
              "sequence generator; distinct by input hash; non-trivial = a derived description (not one of the three shipped layouts themselves)"),
     "assumptions": ["required parking from the independent frequency model of C16; device edges and neighbours from the Surface-17 layer"],
     "floors": {
-        "quick": {"shipped_layouts": 3, "layers_checked": 7000, "derived_descriptions": 1900, "composite_descriptions": 300, "generated_layouts": 1, "generator_calls": 20, "required_parking_queries": 50000},
+        "quick": {"shipped_layouts": 3, "layers_checked": 7000, "derived_descriptions": 1900, "composite_descriptions": 300, "base_reread_after_composite": 300, "generated_layouts": 1, "generator_calls": 20, "required_parking_queries": 50000},
         "thorough": {"shipped_layouts": 3, "layers_checked": 70000, "derived_descriptions": 19000, "composite_descriptions": 3000},
     },
 }
@@ -146,9 +146,21 @@ def check_derived(dev: Device, inp: Dict[str, Any], acc: Acc):
         if comp["leading_gate"]:
             kwargs["_leading_gate_description"] = desc
         cdesc = CompositeRepetitionCodeDescription(**kwargs)
+        base_before = [layer_sets(layer) for layer in desc.gate_sequences]
+        comp_first = [layer_sets(layer) for layer in cdesc.gate_sequences]
         _check_description(dev, lay, cdesc, involved, inp.get("index_map"), acc, case,
                            excluded_edges={frozenset(e) for e in comp["exclude_edges"]}, excluded_qubits=set(comp["exclude_gate_qubits"]),
                            dynamic_parking=comp["only_required_parking"], composite=True)
+        # evaluating a composite description must neither change the description it is based on nor its own next answer
+        acc.count("base_reread_after_composite")
+        base_after = [layer_sets(layer) for layer in desc.gate_sequences]
+        if base_after != base_before:
+            k = next(i for i, (a, b) in enumerate(zip(base_before, base_after)) if a != b)
+            acc.finding("derived/base-changed-by-composite", "evaluating a composite description changed the layers of the description it is based on", case,
+                        {"layer": k, "before": [list(map(list, base_before[k][0])), base_before[k][1]], "after": [list(map(list, base_after[k][0])), base_after[k][1]]})
+            _check_description(dev, lay, desc, involved, inp.get("index_map"), acc, case, excluded_edges=set(), excluded_qubits=set(), dynamic_parking=True)
+        if [layer_sets(layer) for layer in cdesc.gate_sequences] != comp_first:
+            acc.finding("derived/composite-unstable", "a composite description answers differently when asked again", case, None)
 
 
 def _check_description(dev: Device, lay, desc, involved: List[str], index_map, acc: Acc, case, excluded_edges: Set[frozenset], excluded_qubits: Set[str],
